@@ -226,7 +226,7 @@ CLAIMED = {
    note="Trusted: Lean kernel; harness hx_strm.c (ops p.parse, p.rt, r.parse, r.print); the expected-attribute table of vlib/p_C05.py. "
         "The Lean part covers the rule text layer; task attributes and the stream position (DTSTART = next occurrence, remaining COUNT) "
         "are covered by the oracle on the implementation only. SCALE=HIJRI events are not in the round-trip generator. KNOWN FINDINGS D15 "
-        "(INTERVAL phase of secondary or shifted rules is not preserved by the written form), D161-D164 and D179 (written form of several COUNT rules, EXRULE with COUNT, RRULE+RDATE+EXRULE, rules across the night the clocks go forward, BYWEEKNO with BYEASTER): each a shape of its own in the generator.",
+        "(INTERVAL phase of secondary or shifted rules is not preserved by the written form), D161-D164, D179 and D208 (written form of several COUNT rules, EXRULE with COUNT, RRULE+RDATE+EXRULE, rules across the night the clocks go forward, BYWEEKNO with BYEASTER, an RDATE before DTSTART next to a rule): each a shape of its own in the generator.",
    technique="Lean 4 proof (string-level round trip by induction over the printed parts) + differential correspondence + README oracle on the implementation",
    design="§5 C05, §9"),
  "C16": dict(
